@@ -71,6 +71,8 @@ class HState:
         self.silent_uids: dict = {}
         self.taint = ""
         self.flag_cache: dict = {}  # session -> {uid: last FLAGS it was sent}
+        self.recent_wire: dict = {}  # session -> {uid: \\Recent in the last FLAGS it was sent}
+        self.recent_disk: dict = {}  # (mailbox, uidvalidity, uid) -> in .mh_sequences `Recent` when last looked
         self.cmd_reported: dict = {}  # session -> uids whose flags were sent since the last check
         import asimap.mbox as _mb
 
@@ -183,6 +185,12 @@ class HState:
                     self.flag_cache.setdefault(sess.name, {})[u] = got
                     self.cmd_reported.setdefault(sess.name, set()).add(u)
                     fl = {str(x) for x in (it["FLAGS"] or [])}
+                    # \Recent is never set by a client: within one session's (ordered) stream it cannot come back
+                    rw = self.recent_wire.setdefault(sess.name, {})
+                    rec = any(x.lower() == "\\recent" for x in fl)
+                    if rec and rw.get(u) is False:
+                        self.fail("C04.recent-set-again", {"cmd": (cur or {}).get("kind"), "on": "wire"}, "no \\Recent", sorted(fl))
+                    rw[u] = rec
                     if ("unseen" in fl) == ("\\Seen" in fl):
                         self.fail("C04.seen-unseen-complement", {}, None, sorted(fl))
 
@@ -351,6 +359,7 @@ class HState:
         st = self._status("C06", ev, r, exp, False)
         ms = self.model.session(sn)
         self.flag_cache[sn] = {}
+        self.recent_wire[sn] = {}
         if st == "ok" and mb is not None:
             exists = vv = un = None
             for x in resps:
@@ -546,7 +555,15 @@ class HState:
         item = {"+": "+FLAGS", "-": "-FLAGS", "=": "FLAGS"}[mode] + (".SILENT" if silent else "")
         if silent and tgt is not None and not ms.readonly:
             self.silent_uids[sn] = [m.uid for m in tgt]
+        self.check_recent_disk("before-store")
+        rec0 = self._disk_recent(ms.selected) if ms.selected else None
         r, resps = self._cmd(sn, f"{'UID ' if uid else ''}STORE {setstr} {item} ({flags})", "store", uid, pre_flags)
+        rec1 = self._disk_recent(ms.selected) if ms.selected else None
+        if rec0 is not None and rec1 is not None:
+            ch = sorted(u for u in rec0 if u in rec1 and rec0[u] != rec1[u])
+            if ch:
+                self.fail("C04.recent-changed-by-store", {"mode": mode, "uid": uid, "set": [rec1[u] for u in ch][:1]},
+                          {u: rec0[u] for u in ch}, {u: rec1[u] for u in ch})
         if ms.readonly and r is not None:
             st = "ok" if r.typ == "OK" else "refused"
         else:
@@ -779,6 +796,8 @@ class HState:
         # (c) the MH side
         if "C13" in checks:
             self.compare_mh()
+        if "C04" in checks or "C13" in checks:
+            self.check_recent_disk("observe")
         if "C17" in checks:
             self.observe_namespace()
 
@@ -1021,6 +1040,42 @@ class HState:
                 self.fail("C03.uid-search-vs-fetch", {}, uids, rec["uid_search_all"])
             if "MESSAGES" in st and st["MESSAGES"] != len(mb.msgs):
                 self.fail("C05.status-messages", {"mbox": _mclass(name)}, len(mb.msgs), st["MESSAGES"])
+
+    def _disk_recent(self, name):
+        """{uid: in the folder's `Recent` sequence} read from .mh_sequences; keys are matched to the
+        model's messages by position, so None unless folder and model hold the same message list."""
+        mb = self.model.mboxes.get(name)
+        if mb is None or mb.noselect:
+            return None
+        path = self.w.folder_path("inbox" if name == "INBOX" else name)
+        try:
+            mh = stdmailbox.MH(path, create=False)
+            keys = sorted(mh.keys())
+            rec = set(mh.get_sequences().get("Recent", []))
+        except Exception:
+            return None
+        if len(keys) != len(mb.msgs):
+            return None
+        try:
+            for k, m in zip(keys, mb.msgs):
+                with open(os.path.join(path, str(k)), "rb") as f:
+                    if msgs.cid_of(f.read()) != m.cid:
+                        return None
+        except OSError:
+            return None
+        return {m.uid: (k in rec) for k, m in zip(keys, mb.msgs)}
+
+    def check_recent_disk(self, where: str):
+        """\\Recent is given on arrival only: in .mh_sequences it never comes back for a message."""
+        for name, mb in self.model.mboxes.items():
+            dr = self._disk_recent(name)
+            if dr is None:
+                continue
+            for u, rec in dr.items():
+                k = (name, mb.vv, u)
+                if rec and self.recent_disk.get(k) is False:
+                    self.fail("C04.recent-set-again", {"on": "disk", "at": where}, "not in Recent", {"uid": u})
+                self.recent_disk[k] = rec
 
     def compare_mh(self):
         """What an MH tool sees: stdlib mailbox.MH on the folder."""
